@@ -1363,7 +1363,7 @@ def eval_far(payload):
 #   clipped).  (b) is used for coverage accounting only, never for the verdict.  For every
 #   (branch, clipped window edge, verdict) one representative (three in thorough) is run.
 # ----------------------------------------------------------------------------------------
-BRANCH_RAYS = (2, None, False)
+BRANCH_RAYS = (1, None, False)
 ROD_W_FRAC = 0.1  # rod thickness / visibleDistance
 
 
@@ -1463,23 +1463,31 @@ def classify_rod(cam_l, ang, vd, A, B, spacing):
     L = float(np.linalg.norm(axis))
     if L < 4 * w:
         return None
-    helper = np.array([0.0, 0.0, 1.0]) if abs(axis[2]) / L < 0.9 else np.array([1.0, 0.0, 0.0])
-    F = M.frame_from_axes(axis, np.cross(helper, axis))
     centre = (A + B) / 2
     dims = (L, w, w)
-    I = np.eye(3)
+
+    def F():
+        helper = np.array([0.0, 0.0, 1.0]) if abs(axis[2]) / L < 0.9 else np.array([1.0, 0.0, 0.0])
+        return M.frame_from_axes(axis, np.cross(helper, axis))
+
     rad_m = RAD_M_FRAC * vd
-    all_out = True
-    for c, r in M.box_cover_balls(centre, F, dims):
-        if M.classify_ball(cam_l, I, ang, vd, c, r, ANG_M, rad_m) != M.OUT:
-            all_out = False
-            break
-    if all_out:
-        return "N", centre, F, dims, None
-    for c, r in M.box_inner_balls(centre, F, dims):
-        d = float(np.linalg.norm(c))
-        if d > r and M.classify_ball(cam_l, I, ang, vd, c, r, ANG_M, rad_m) == M.IN and 2 * math.degrees(math.asin(r / d)) >= 4 * spacing:
-            return "V", centre, F, dims, (c, r)
+    u = axis / L
+    n = int(math.ceil(L / w))
+    piece = L / n
+    cc = A[None, :] + ((np.arange(n) + 0.5) * piece)[:, None] * u[None, :]
+    _, out = M.classify_balls(ang, vd, cc, 0.5 * math.sqrt(piece**2 + 2 * w * w), ANG_M, rad_m)
+    if out.all():
+        return "N", centre, F(), dims, None
+    r_in = 0.5 * w * 0.85
+    ni = max(1, int(L / w))
+    ci = A[None, :] + (0.5 * w + np.arange(ni) * (L - w) / max(ni - 1, 1))[:, None] * u[None, :]
+    inside, _ = M.classify_balls(ang, vd, ci, r_in, ANG_M, rad_m)
+    dd = np.linalg.norm(ci, axis=1)
+    with np.errstate(invalid="ignore"):
+        good = inside & (dd > r_in) & (2 * np.degrees(np.arcsin(np.minimum(1.0, r_in / dd))) >= 4 * spacing)
+    if good.any():
+        k = int(np.argmax(good))
+        return "V", centre, F(), dims, (ci[k], r_in)
     return None
 
 
@@ -1502,8 +1510,8 @@ def eval_branch(payload):
     n_run = 0
     box_faces = M.box_mesh((1, 1, 1), np.eye(3), zero)[1]
     for i in range(len(pts)):
-        if pts[i][2] != 0.5:
-            continue  # one end of every rod is near the camera
+        if pts[i][2] != 0.5 and pts[i] != (0.0, 0.0, 1.3):
+            continue  # one end of every rod is near the camera (plus rods starting straight ahead beyond visibleDistance)
         for j in range(len(pts)):
             if j == i or (pts[j][2] == 0.5 and j < i):
                 continue
@@ -1759,6 +1767,15 @@ def selftest():
         raise HarnessError("model: segment/box first hit parameter")
     if M.segment_hits((3, 0, 0), (3, 10, 0), v, f) is not None:
         raise HarnessError("model: segment beside the box")
+    grid = np.array([r * M.direction(math.radians(a), math.radians(b)) for r in (3.0, 9.0, 10.4, 12.0) for a in range(-180, 180, 15) for b in (-80, -40, -9, 0, 11, 46, 75)])
+    for angd in ((200, 20), (90, 90), (360, 90), (30, 180), (360, 180)):
+        angr = (math.radians(angd[0]), math.radians(angd[1]))
+        for rad in (0.3, 1.2):
+            vin, vout = M.classify_balls(angr, 10.0, grid, rad, ANG_M, 0.5)
+            for k, c in enumerate(grid):
+                one = M.classify_ball(np.zeros(3), np.eye(3), angr, 10.0, c, rad, ANG_M, 0.5)
+                if (one == M.IN) != bool(vin[k]) or (one == M.OUT) != bool(vout[k]):
+                    raise HarnessError("model: vectorised ball classifier disagrees with the scalar one")
     for ypr in ROTS_THOROUGH:
         back = ypr_of_matrix(M.rot_deg(ypr))
         if back is not None and not np.allclose(M.rot(*back), M.rot_deg(ypr), atol=1e-9):
